@@ -31,18 +31,28 @@ def explore(res, rng, n):
         # the lattice has step h (1, 1/2 or 1/4: exact in binary64); states are carried as lattice indices, the sampler sees index * h.  A start
         # point with integral coordinates may be handed over as Python ints or an integer array: the chain still moves on the h-lattice
         h = rng.choice([1.0, 1.0, 0.5, 0.25])
-        def f(x, weights=weights, sc=sc, h=h):
-            key = tuple(int(round(float(v) / h)) for v in np.atleast_1d(x))
+        # … and the lattice may be tiny (step 2^-40: moves of 1e-12) or sit on a large offset (2^20 + k: moves of 1e-6 of the state): a move is a
+        # move whatever its size relative to the state
+        off = 0.0
+        if i % 5 == 2:
+            h = 2.0 ** -40
+            res.stat('mh_tiny_lattice')
+        elif i % 5 == 4:
+            off = rng.choice([2.0 ** 20, -2.0 ** 22])
+            res.stat('mh_lattice_on_a_large_offset')
+        def f(x, weights=weights, sc=sc, h=h, off=off):
+            key = tuple(int(round((float(v) - off) / h)) for v in np.atleast_1d(x))
             if key not in weights:
                 weights[key] = rng.choice([0, 0, 1, 2, 3, 4, 8, 5])
             return float(weights[key]) * sc
-        mult = rng.choice([1, int(1 / h)])
+        mult = rng.choice([1, int(1 / h)]) if h >= 0.25 else 1
         cur = [rng.randint(-2, 2) * mult for _ in range(d)]
         weights[tuple(cur)] = rng.choice([1, 2, 4, 8, 3])          # the chain starts in the support
         lim = rng.choice([1, 2, 5])
-        sv = [v * h for v in cur]
+        sv = [off + v * h for v in cur]
         integral = all(float(v).is_integer() for v in sv)
-        dom = lambda c, nx, lim=lim: bool(np.all(np.abs(nx) <= lim))
+        hd = h if h >= 0.25 else 1.0                                # (the domain bound is in units of the nominal lattice)
+        dom = lambda c, nx, lim=lim, off=off, h=h, hd=hd: bool(np.all(np.abs((np.asarray(nx, dtype=float) - off) / h * hd) <= lim))
         cands, us = [], []
         prop = lambda c: cands[-1]
         if i % 3 == 0:
@@ -61,11 +71,11 @@ def explore(res, rng, n):
         state = list(cur)
         for step in range(rng.choice([1, 3, 6])):
             cand = [v + rng.choice([-1, 0, 1, 2]) for v in state]
-            cands.append([c * h for c in cand])
+            cands.append([off + c * h for c in cand])
             uden = rng.choice([2, 4, 8, 16])
             unum = rng.choice([0, 0, 1, uden // 2, uden - 1, uden]) if rng.random() < 0.6 else rng.randrange(uden + 1)
             u = unum / uden
-            fcur, fcand = int(f(np.array(state) * h) / sc), int(f(np.array(cand) * h) / sc)
+            fcur, fcand = int(f(off + np.array(state) * h) / sc), int(f(off + np.array(cand) * h) / sc)
             if fcur == 0:
                 break
             try:
@@ -73,7 +83,7 @@ def explore(res, rng, n):
                     out = s.getSample()
             except Exception as e:  # noqa
                 fail(res, 'step raised %s on non-negative densities: %s' % (type(e).__name__, str(e)[:80]), 'MetropolisHastingsSampler.getSample',
-                     {'cur': state, 'cand': cand, 'h': h, 'u': [unum, uden], 'fcur': fcur, 'fcand': fcand, 'limit': lim}, None)
+                     {'cur': state, 'cand': cand, 'h': h, 'offset': off, 'u': [unum, uden], 'fcur': fcur, 'fcand': fcand, 'limit': lim}, None)
                 break
             res.evaluations += 1
             if isinstance(start, np.ndarray) and [float(v) for v in start] != sv:
@@ -82,11 +92,11 @@ def explore(res, rng, n):
                 start = np.array(sv, dtype=float)
             res.nontrivial.add(('mh', tuple(state), tuple(cand), unum, uden, fcur, fcand))
             res.stat('mh_accept_region' if Fraction(unum, uden) <= Fraction(fcand, fcur) else 'mh_reject_region')
-            res.stat('mh_domain_%s' % ('in' if dom(None, np.array(cand) * h) else 'out'))
-            new = [float(v) / h for v in out]
-            case = {'cur': state, 'cand': cand, 'h': h, 'start_type': type(start).__name__ + ':' + type(start[0]).__name__, 'u': [unum, uden],
+            res.stat('mh_domain_%s' % ('in' if dom(None, off + np.array(cand) * h) else 'out'))
+            new = [(float(v) - off) / h for v in out]
+            case = {'cur': state, 'cand': cand, 'h': h, 'offset': off, 'start_type': type(start).__name__ + ':' + type(start[0]).__name__, 'u': [unum, uden],
                     'fcur': fcur, 'fcand': fcand, 'limit': lim}
-            reqs.append(f'mh {fcur} {fcand} {unum} {uden} {int(dom(None, np.array(cand) * h))} {int(dom(None, np.array(state) * h))}')
+            reqs.append(f'mh {fcur} {fcand} {unum} {uden} {int(dom(None, off + np.array(cand) * h))} {int(dom(None, off + np.array(state) * h))}')
             if not all(v.is_integer() for v in new):
                 fail(res, 'the chain moved to a point that is neither the current point nor the candidate', 'MetropolisHastingsSampler.getSample', case,
                      [float(v) for v in out])
@@ -95,7 +105,7 @@ def explore(res, rng, n):
             new = [int(v) for v in new]
             meta.append(('mh', case, new))
             # never leaves the support
-            if fcur > 0 and f(np.array(new) * h) == 0:
+            if fcur > 0 and f(off + np.array(new) * h) == 0:
                 sig = 'C14:support:u=0:zero-density-candidate' if unum == 0 and fcand == 0 else None
                 fail(res, 'chain left the support of the target', 'MetropolisHastingsSampler.getSample', case, new, sig)
             state = new
@@ -104,23 +114,31 @@ def explore(res, rng, n):
         tabs = [dict() for _ in range(d)]
         scs = [rng.choice([1.0, 1.0, 1.0, 2.0 ** -100, 2.0 ** -400, 2.0 ** 200]) for _ in range(d)]
         h = rng.choice([1.0, 1.0, 0.5, 0.25])
-        def mk(j, h=h):
+        offa = 0.0
+        if i % 5 == 3:
+            h = 2.0 ** -40
+            res.stat('au_tiny_lattice')
+        elif i % 5 == 0:
+            offa = rng.choice([2.0 ** 20, -2.0 ** 22])
+            res.stat('au_lattice_on_a_large_offset')
+        hda = h if h >= 0.25 else 1.0
+        def mk(j, h=h, offa=offa):
             def fj(x):
-                key = int(round(float(np.asarray(x)) / h))
+                key = int(round((float(np.asarray(x)) - offa) / h))
                 if key not in tabs[j]:
                     tabs[j][key] = rng.choice([0, 1, 2, 4, 8, 3])
                 return float(tabs[j][key]) * scs[j]
             return fj
         fs = [mk(j) for j in range(d)]
-        mult = rng.choice([1, int(1 / h)])
+        mult = rng.choice([1, int(1 / h)]) if h >= 0.25 else 1
         cur = [rng.randint(-2, 2) * mult for _ in range(d)]
         for j in range(d):
             tabs[j][cur[j]] = rng.choice([1, 2, 4, 8])
         lim = rng.choice([2, 4, 9])
-        dom = lambda c, nx, lim=lim: bool(np.sum(np.abs(nx)) <= lim)
+        dom = lambda c, nx, lim=lim, h=h, offa=offa, hda=hda: bool(np.sum(np.abs((np.asarray(nx, dtype=float) - offa) / h * hda)) <= lim)
         cand = list(cur)
-        props = [(lambda c, j=j, h=h: float(cand[j]) * h) for j in range(d)]
-        sv = [v * h for v in cur]
+        props = [(lambda c, j=j, h=h, offa=offa: offa + float(cand[j]) * h) for j in range(d)]
+        sv = [offa + v * h for v in cur]
         if all(float(v).is_integer() for v in sv) and i % 3 == 1:
             start = [int(v) for v in sv]                        # (the component-wise sampler takes lists only)
             res.stat('au_integer_start_h_%g' % h)
@@ -134,8 +152,8 @@ def explore(res, rng, n):
             uds = [rng.choice([2, 4, 8]) for _ in range(d)]
             uns = [rng.choice([0, ud, rng.randrange(ud + 1), rng.randrange(ud + 1)]) for ud in uds]
             it = iter([un / ud for un, ud in zip(uns, uds)])
-            fcur = [int(fs[j](cur[j] * h) / scs[j]) for j in range(d)]
-            fcand = [int(fs[j](cand[j] * h) / scs[j]) for j in range(d)]
+            fcur = [int(fs[j](offa + cur[j] * h) / scs[j]) for j in range(d)]
+            fcand = [int(fs[j](offa + cand[j] * h) / scs[j]) for j in range(d)]
             if any(v == 0 for v in fcur):
                 break
             try:
@@ -148,9 +166,9 @@ def explore(res, rng, n):
             res.evaluations += 1
             res.nontrivial.add(('au', tuple(cur), tuple(cand), tuple(uns), tuple(uds)))
             res.stat('au_step_%d' % min(step, 3))
-            case = {'cur': list(cur), 'cand': list(cand), 'h': h, 'start_type': type(start).__name__ + ':' + type(start[0]).__name__,
+            case = {'cur': list(cur), 'cand': list(cand), 'h': h, 'hd': hda, 'offset': offa, 'start_type': type(start).__name__ + ':' + type(start[0]).__name__,
                     'u': list(zip(uns, uds)), 'fcur': fcur, 'fcand': fcand, 'limit': lim, 'step': step}
-            new = [float(v) / h for v in out]
+            new = [(float(v) - offa) / h for v in out]
             if not all(v.is_integer() for v in new):
                 fail(res, 'the chain moved to a point whose coordinates are neither the current nor the proposed ones', 'AuModifiedMHSampler.getSample',
                      case, [float(v) for v in out])
@@ -176,7 +194,7 @@ def explore(res, rng, n):
                 continue
             flags = [] if a == '-' else [int(x) for x in a.split(',')]
             nxt = [c if fl else k for fl, c, k in zip(flags, case['cand'], case['cur'])]
-            inside = sum(abs(v) for v in nxt) * case['h'] <= case['limit']
+            inside = sum(abs(v) for v in nxt) * case['hd'] <= case['limit']
             want = nxt if inside else case['cur']
             if new != want:
                 fail(res, 'component-wise step differs from the rule (per-coordinate accept, one domain test on the assembled candidate)',
